@@ -43,11 +43,10 @@ NOBODY = 65534
 FORMATS = {
     'pax':    dict(ns=1, fifo=True, links=True, sparse=True, xattr=True),
     'gnutar': dict(ns=10**9, fifo=True, links=True, sparse=False, xattr=False),
-    'ustar':  dict(ns=10**9, fifo=True, links=True, sparse=False, xattr=False),
     'newc':   dict(ns=10**9, fifo=True, links=True, sparse=False, xattr=False),
     'zip':    dict(ns=10**9, fifo=False, links=False, sparse=False, xattr=False),
-    '7zip':   dict(ns=100, fifo=False, links=False, sparse=False, xattr=False),
-    'xar':    dict(ns=10**9, fifo=True, links=True, sparse=False, xattr=True),
+    '7zip':   dict(ns=100, fifo=True, links=False, sparse=False, xattr=False),
+    'xar':    dict(ns=10**9, fifo=True, links=True, sparse=False, xattr=True, root=False),   # no entry for "." itself
 }
 ASCII = 'abcdefghijklmnopqrstuvwxyzABCDEFGHIJKLMNOPQRSTUVWXYZ0123456789'
 PUNCT = ' ._-+=,@%~#()[]{}!^&;\''
@@ -303,7 +302,7 @@ class TreeEng(Engine):
                     else:
                         perm, tm, sparse = True, any(x.startswith('-') and 'm' in x for x in xo), False
                 cpio = fmt in ('newc', 'odc') or (w[0] == 'cli' and w[1] == 'cpio')
-                d = self.check_restore(src, o, FORMATS.get(fmt, FORMATS['pax']), perm, tm, sparse, uid, cpio)
+                d = self.check_restore(src, o, FORMATS.get(fmt, FORMATS['pax']), perm, tm, sparse, uid, cpio, fmt == 'xar')
                 if d:
                     yield f'{op}: {d}'
             elif w[0] == 'list' and src is not None:
@@ -323,7 +322,7 @@ class TreeEng(Engine):
                     else:
                         yield 'extended attributes not reproduced: ' + o
 
-    def check_restore(self, src, line, F, perm, tm, sparse, uid, cpio=False):
+    def check_restore(self, src, line, F, perm, tm, sparse, uid, cpio=False, xar=False):
         head, dst = parse_snap(line)
         if dst is None:
             return 'restored snapshot unparsable: ' + head
@@ -333,6 +332,8 @@ class TreeEng(Engine):
             return f'names differ: missing {sorted(a - b)[:3]} extra {sorted(b - a)[:3]}'
         linked = {p for g in groups(src) for p in g}
         for s, d in zip(want, dst):
+            if s['path'] == '-' and not F.get('root', True):
+                continue
             # signatures of the two recorded cpio findings (known_findings.json)
             if cpio and s['path'] in linked and s['type'] == 'f' and uid != 0 and s['mode'] & 0o200 == 0 \
                     and d['type'] == 'f' and d['size'] == 0 and s['size'] > 0:
@@ -340,6 +341,9 @@ class TreeEng(Engine):
             if cpio and s['path'] in linked and s['type'] == 'l' and d['type'] == 'l' and s['target'] != d['target'] \
                     and any(d['target'] == '2e2f' + p for p in linked):
                 return f"KF-cpio-symlink-hardlink: hard-linked symlink {s['path']} restored with the link name as target"
+            if xar and s['path'] in linked and s['type'] == 'l' and d['type'] == 'l' and s['target'] != d['target'] \
+                    and any(d['target'] == '2e2f' + p for p in linked):
+                return f"KF-xar-nonregular-hardlink: hard-linked symlink {s['path']} restored with the link name as target"
             if s['type'] != d['type']:
                 return f"type of {s['path']}: {s['type']} -> {d['type']}"
             if s['type'] == 'f' and (d['content'] != 'ok' or d['size'] != s['size']):
@@ -360,6 +364,11 @@ class TreeEng(Engine):
             wp = {e['path'] for e in want}
             gs = sorted(tuple(p for p in g if p in wp) for g in groups(src))
             gs = [g for g in gs if len(g) > 1]
+            if xar and gs != groups(dst):
+                ty = {e['path']: e['type'] for e in src}
+                regular = [g for g in gs if ty[g[0]] == 'f']
+                if regular == [g for g in groups(dst) if ty.get(g[0]) == 'f']:
+                    return 'KF-xar-nonregular-hardlink: hard links between symlinks / fifos restored as separate objects'
             if gs != groups(dst):
                 return f'link structure differs: {gs[:2]} -> {groups(dst)[:2]}'
         return None
